@@ -294,7 +294,10 @@ def run(ctx):
                 if isinstance(side, ast.Constant) and isinstance(side.value, int) and not isinstance(side.value, bool) and side.value >= 1024:
                     cap = side.value
     if cap is None:
-        raise AnalysisError('header size cap not found in Stream.read_response')
+        ck.bad('C07-D3', rr.qual, 'header block size is bounded by a constant',
+               'the HTTP reader no longer bounds the header block, so no finite sniffing window of the CDX writer covers every header: '
+               'status and MIME type are lost for responses with a larger header', rr.loc())
+        cap = float('inf')
     reads = [(gh, c, {}) for c in U.calls(gh.node, attr='read')]
     if not reads:
         # the block may be read through a helper (e.g. wpull.util.peek_file(self.block_file[, length]))
@@ -325,8 +328,8 @@ def run(ctx):
             n = repo.fold(f_.module, arg)
         except ValueError:
             n = None
-        ck.expect(isinstance(n, int) and (n < 0 or n >= cap), 'C07-D3', gh.qual, 'window %s >= header cap %d' % (n, cap),
-                  'only %s bytes of the block are inspected but the HTTP reader accepts header blocks up to %d bytes' % (n, cap),
+        ck.expect(isinstance(n, int) and (n < 0 or n >= cap), 'C07-D3', gh.qual, 'window %s >= header cap %s' % (n, cap),
+                  'only %s bytes of the block are inspected but the HTTP reader accepts header blocks up to %s bytes' % (n, cap),
                   f_.loc(c))
     if not reads:
         ck.bad('C07-D3', gh.qual, 'read of the record block', 'get_http_header does not read the block file (directly or through a helper) with a known window', gh.loc())
